@@ -120,14 +120,14 @@ AddWith(R(_, _), d, m, ok, err) ==
          [] m = "cbs"  -> ok # Thru /\ err # Thru
     /\ nId' = nId + 1
     /\ LET st0 == [St EXCEPT !.cbs[d] = Append(@, UserEntry(nId + 1, m, ok, err))]
-       IN Commit(R(st0, d), [e |-> "add", d |-> d, inv |-> <<>>, exc |-> ""])
+       IN Commit(R(st0, d), [e |-> "add", d |-> d, m |-> m, ok |-> ok, err |-> err, inv |-> <<>>, exc |-> ""])
     /\ UNCHANGED cfg
 
 \* callback(v) / errback(E_v) on a Deferred that has not been fired
 FireWith(R(_, _), d, k, v) ==
     /\ d \in D /\ res[d] = NoneRes /\ k \in {"ok", "err"}
     /\ LET st0 == [St EXCEPT !.res[d] = <<k, v>>]
-       IN Commit(R(st0, d), [e |-> "fire", d |-> d, inv |-> <<>>, exc |-> ""])
+       IN Commit(R(st0, d), [e |-> "fire", d |-> d, k |-> k, v |-> v, inv |-> <<>>, exc |-> ""])
     /\ UNCHANGED <<cfg, nId>>
 
 Pause(d) ==
